@@ -163,12 +163,15 @@ CLAIMED = {
             "directories, diamonds, cycles of any length, ./ and ../ spellings, missing files).",
             "trusted: Model/Ifdef.v, Model/Include.v, Spec/CondSpec.v; include oracle"),
     "C17": ("PARTIAL proof. Coq theorems: the line and column recorded in every token are those of its first character "
-            "(1 + newlines before it, 1 + characters since the last newline), for every text — comments, tabs, multi-line "
+            "(1 + newlines before it, 1 + characters since the last newline), for every text - comments, tabs, multi-line "
             "constructs included (every lexer state is the text advanced by k <= n characters); conditional compilation "
-            "keeps every surviving line unchanged at its line number. NOT theorems: which token each diagnostic is attached "
-            "to, the quoted line and caret, attribution inside included files, run-time warnings — decided by the "
-            "planted-fault oracle (13 fault kinds x random layout).",
-            "trusted: Model/Lexer.v, Model/Ifdef.v; planted-fault oracle"),
+            "keeps every surviving line unchanged at its line number; the type checker (Model/Preproc.v) attaches every "
+            "operand fault to that operand's token - and reports every faulty operand - and a wrong operand count to the "
+            "operation. NOT theorems: parser diagnostics, the quoted line and caret, attribution inside included files, "
+            "run-time warnings - decided by the planted-fault oracle (15 fault kinds x random layout) and an "
+            "implementation-only check that the text at every reported line:column is the token.",
+            "trusted: Model/Lexer.v, Model/Ifdef.v, Model/Preproc.v (differential incl. the attachment of every message); "
+            "planted-fault oracle"),
     "C18": ("PARTIAL proof. Coq theorems on the hand model of parse_args (Model/Cli.v; FLAGS and PICKY_FLAGS regenerated "
             "from hera/main.py): an accepted argument vector has exactly the settings its flags denote — none of the "
             "informational flags, every mode-specific flag compatible with the chosen mode, not both --quiet and --verbose, "
